@@ -207,7 +207,7 @@ Section BuildDec.
       reads from the encoder's own buffer *)
   Theorem build_decodes n v fr d' lay : lookup n table = Some lay -> plain lay = true -> counts_ok lay = true ->
     build_on fresh_data (MTyped n v) = Ok (fr, d') ->
-    exists f v', frame_new fr = Ok f /\ fr_number f = Some n /\ from_frame f = Ok (MTyped n v') /\
+    exists f v', frame_new fr = Ok f /\ fr_number f = Some n /\ from_frame f = Ok (MTyped n v') /\ shape v v' /\
       exists o', dec lay (fr_data f) 12 = Ok (v', o') /\ 12 <= o' <= 8 * zlen (fr_data f).
   Proof.
     intros Hlk Hp Hcn Hbuild.
@@ -231,7 +231,7 @@ Section BuildDec.
     destruct (put_bits KU 16 window 0 n 12 n ltac:(lia) ltac:(lia) ltac:(lia) ltac:(lia) Hwb eq_refl) as [d0' [Pu' [L0 [B0 Bits0]]]].
     rewrite Pu in Pu'. inversion Pu'; subst d0' o0. clear Pu'.
     (* the body *)
-    destruct (accepted_decodes sigt ssr59 ssr65 cap59 cap65 lay Hp Hcn d0 12 v d1 o1 B0 ltac:(lia) En) as [M1 [B1 [L1 [A1 [v' D1]]]]].
+    destruct (accepted_decodes sigt ssr59 ssr65 cap59 cap65 lay Hp Hcn d0 12 v d1 o1 B0 ltac:(lia) En) as [M1 [B1 [L1 [A1 [v' [D1 Sh1]]]]]].
     pose proof (encode_frag_grows sigt ssr59 ssr65 cap59 cap65 Hc59 Hc65 lay Hwf (d0, 12) v (d1, o1) En) as Hg. cbn [snd] in Hg.
     set (dl := (o1 - 1) / 8 + 1) in *.
     assert (Hdl : 2 <= dl <= 1023) by (unfold dl; lia).
@@ -294,8 +294,7 @@ Section BuildDec.
     (* decode from the frame's payload *)
     pose proof (decode_frag_ext2 sigt ssr59 ssr65 cap59 cap65 lay Hp d1 (fr_data (frame_of fr)) 12 v' o1 B1 Hfdb ltac:(lia) D1 ltac:(lia)
                   ltac:(apply (bits_agree_sub _ _ 0 (8 * dl)); [exact Hagree|lia|lia])) as D2.
-    split.
-    - unfold Message.from_frame. rewrite Hnumber, Hlk, D2. reflexivity.
-    - exists o1. split; [exact D2|lia].
+    split; [unfold Message.from_frame; rewrite Hnumber, Hlk, D2; reflexivity|]. split; [exact Sh1|].
+    exists o1. split; [exact D2|lia].
   Qed.
 End BuildDec.
